@@ -119,6 +119,10 @@ class ListenTable:
             path, cname = MQ_PY, "Mqtt"
         else:
             def async_register(interp, hass_, domain, name, webhook_id, handler, local_only=None, allowed_methods=None):
+                # Home Assistant refuses an id that is already registered (by another integration): ValueError
+                if eng.choose(2, "webhook-id-taken-elsewhere") == 1:
+                    w.emit("Webhook.register-refused", webhook_id)
+                    raise exc("ValueError", "Handler is already defined!")
                 w.emit("Webhook.listen", webhook_id, handler)
                 tbl.listeners.view().setitem(webhook_id, SV(tbl.count(webhook_id.t) + 1))
 
